@@ -4,7 +4,7 @@ from harness import c09 as C9
 from spec import enc
 from spec import elf_layout as L
 from spec import relocs as R
-from harness.elfkit import Image, stream_length
+from harness.elfkit import Image, stream_length, elf_object
 
 PROPERTY = 'C08'
 ASSUMPTIONS = [
@@ -18,20 +18,8 @@ OUTSIDE = ['R_ARM_CALL and BPF relocations (not in the statement)', 'R_MIPS_64 i
 ENVS = [(32, True), (32, False), (64, True), (64, False)]
 
 
-class _Elf:
-    def __init__(self, ctx, stream, cls, little, machine='EM_X86_64', arch='x64'):
-        S = ctx.lib('elf.structs')
-        self.stream = stream
-        self.stream_len = stream_length(stream)
-        self.elfclass = cls
-        self.little_endian = little
-        self.structs = S.ELFStructs(little_endian=little, elfclass=cls)
-        self.structs.create_basic_structs()
-        self.structs.create_advanced_structs('ET_REL', machine, 'ELFOSABI_SYSV')
-        self._arch = arch
-
-    def get_machine_arch(self):
-        return self._arch
+def _Elf(ctx, stream, cls, little, machine='EM_X86_64', arch='x64'):
+    return elf_object(ctx, stream if stream is not None else ctx.stream([0] * 4), cls, little, machine, 'ET_REL')
 
 
 # ------------------------------------------------------------------ H8.1 entry layout
@@ -342,7 +330,7 @@ def h_plumbing(ctx):
 def _apply_instances(tier):
     out = []
     for mach, (code, arch, flavours, table) in R.TABLE.items():
-        classes = {'x86': (32,), 'ARM': (32,), 'x64': (64,), 'AArch64': (64,), 'PPC64': (64,), 'S390x': (64,), 'LoongArch': (64,), 'MIPS': (32, 64)}[mach]
+        classes = {'x86': (32,), 'ARM': (32,), 'x64': (64, 32), 'AArch64': (64, 32), 'PPC64': (64,), 'S390x': (64,), 'LoongArch': (64, 32), 'MIPS': (32, 64)}[mach]      # 32: the x32, ILP32 and LA32 ABIs
         orders = {'PPC64': (False, True), 'S390x': (False,), 'MIPS': (False, True), 'ARM': (True, False)}.get(mach, (True,))
         for cls in classes:
             for little in orders:
@@ -355,15 +343,15 @@ def _apply_instances(tier):
 
 
 def _relr_instances(tier):
-    B = 6 if tier == 'quick' else 10
+    B = 6 if tier == 'quick' else 8
     out = []
     for cls, little in ((64, True), (32, False)) if tier == 'quick' else ENVS:
         for k in (0, 1, 2, 3) + ((4,) if tier == 'thorough' else ()):
-            out.append(dict(elfclass=cls, little=little, k=k, B=B if k < 3 else (2 if tier == 'quick' or k == 4 else 4), base=4 if k == 1 else 0))
+            out.append(dict(elfclass=cls, little=little, k=k, B=B if k < 3 else (2 if tier == 'quick' or k == 4 else 3), base=4 if k == 1 else 0))
     return out
 
 
-TIER_PARAMS = {'quick': {'conc_cap': 300}, 'thorough': {'conc_cap': 600}}
+TIER_PARAMS = {'quick': {'conc_cap': 300}, 'thorough': {'conc_cap': 600, 'deadline_s': 5400}}
 
 HARNESSES = [
     H('h8_1_entry', h_entry, lambda tier: [dict(elfclass=c, little=l, rela=r) for c, l in ENVS for r in (False, True)] +
@@ -381,7 +369,7 @@ HARNESSES = [
       desc='_do_apply_relocation on a 16-byte symbolic section: per machine x class x byte order x REL/RELA x each supported type and "any other type" (symbolic): '
            'field = psABI formula mod 2^width, every other byte unchanged; unsupported type / wrong flavour / symbol index out of range -> ELFRelocationError with the bytes untouched',
       bounds={'all': 'symbol value, addend, in-place bytes symbolic at full width; r_offset 0..8; symbol index 0..3 over a 2-entry table'}),
-    H('h8_6_dynamic_tables', C9.h_dynamic, lambda tier: [c for c in C9._instances(tier) if c.get('both_flavours') or (c.get('layout') == 'split' and c['variant'] == 'stripped')],
+    H('h8_6_dynamic_tables', C9.h_dynamic, lambda tier: [c for c in C9._instances(tier) if (c.get('both_flavours') or c.get('relr')) and (tier == 'thorough' or (c['elfclass'] == 64) == bool(c.get('relr')))],
       expect=('ok',),
       desc='the relocation tables reached through the dynamic array (DT_REL / DT_RELA / DT_JMPREL; objects carrying BOTH flavours; pointers mapped through two PT_LOAD segments), '
            'section view and segment view (harness shared with C09)'),
